@@ -119,6 +119,7 @@ pub fn run(ctx: &Ctx) -> Report {
     let seed = ctx.seed;
     let mut notes = vec![];
     for (sp, sweep) in &spaces {
+        let t_space = std::time::Instant::now();
         let nf = bases.len() as u64;
         let acc = par_for(ctx, sp.total * nf, 16, |i| { let (p, e) = sp.at(i / nf); format!("prog={} env={} flags={:#x}", p.hex(), e.hex(), bases[(i % nf) as usize].bits()) }, |i, acc| {
             let (p, e) = sp.at(i / nf);
@@ -128,7 +129,7 @@ pub fn run(ctx: &Ctx) -> Report {
             acc.inc("cases");
             acc.maybe_sample(sample_key(seed, i ^ fnv(sp.name.as_bytes())), || json!({"space": sp.name, "prog": p.hex(), "env_bytes": e.ser().len(), "flags": format!("{:#x}", f.bits())}));
         });
-        notes.push(json!({"space": sp.name, "programs": sp.total, "base_flag_sets": nf, "heap_limit_sweep": sweep}));
+        notes.push(json!({"space": sp.name, "wall_s": t_space.elapsed().as_secs_f64(), "programs": sp.total, "base_flag_sets": nf, "heap_limit_sweep": sweep}));
         rep.absorb(acc);
     }
     rep.note("spaces", json!(notes));
